@@ -87,7 +87,9 @@ func (fc *FnCtx) reset(pass int) {
 	fc.inl = nil
 	fc.inlineDepth = 0
 	fc.qn = 0
-	fc.keyObj = map[heapKey]*types.Var{}
+	if pass == 1 {
+		fc.keyObj = map[heapKey]*types.Var{} // kept for pass 2: keys are materialised at entry before their first use
+	}
 	fc.owned = nil
 	fc.invCallOrd = 0
 	fc.wlog, fc.alog, fc.freshOnly = nil, nil, nil
